@@ -160,7 +160,9 @@ func (x *Executor) computeFrame(con *Contract, vars map[string]Val, entry *State
 		case *ESel:
 			if id, ok := t.X.(*EIdent); ok {
 				if ty := x.lookupTypeName(preEnv, id.Name); ty != nil {
-					if _, isS := ty.Underlying().(*types.Struct); isS {
+					_, isS := ty.Underlying().(*types.Struct)
+					_, isI := ty.Underlying().(*types.Interface)
+					if isS || isI {
 						comp, _ := u.fieldComp(ty, t.Name)
 						fs.whole[comp] = true
 						continue
@@ -170,6 +172,11 @@ func (x *Executor) computeFrame(con *Contract, vars map[string]Val, entry *State
 			pv, err := preEnv.Eval(t.X)
 			if err != nil {
 				fs.errs = append(fs.errs, err.Error())
+				continue
+			}
+			if _, isIface := pv.Ty.Underlying().(*types.Interface); isIface {
+				comp, _ := u.fieldComp(pv.Ty, t.Name)
+				fs.targets = append(fs.targets, locTarget{comp: comp, ref: fmt.Sprintf("(i.val %s)", pv.T), kind: "field"})
 				continue
 			}
 			pt, ok := pv.Ty.Underlying().(*types.Pointer)
@@ -347,6 +354,18 @@ func (x *Executor) evalLoopClauseBack(fr *Frame, li *loopInfo, st *State, e Expr
 }
 
 func (x *Executor) evalLoopClauseAt(fr *Frame, li *loopInfo, st *State, e Expr, back bool) (string, error) {
+	env := x.loopEnv(fr, li, st)
+	if li.entrySt != nil {
+		env.preEnv = x.loopEnv(fr, li, li.entrySt)
+	}
+	v, err := env.Eval(e)
+	if err != nil {
+		return "", err
+	}
+	return v.T, nil
+}
+
+func (x *Executor) loopEnv(fr *Frame, li *loopInfo, st *State) *Env {
 	u := x.u
 	vars := map[string]Val{}
 	if fr.con != nil {
@@ -402,11 +421,7 @@ func (x *Executor) evalLoopClauseAt(fr *Frame, li *loopInfo, st *State, e Expr, 
 	if env.old == nil {
 		env.old = x.entry
 	}
-	v, err := env.Eval(e)
-	if err != nil {
-		return "", err
-	}
-	return v.T, nil
+	return env
 }
 
 func rangeIndexAlloc(li *loopInfo) *ssa.Alloc {
